@@ -74,6 +74,50 @@ def symbolic(prog):
     return comps, shape
 
 
+def split_layout(prog):
+    used = sorted(set(r for ins in prog for r in ins[1] if r in PR.PRELUDE))
+    spare = [r for r in ('V1', 'S1', 'M1', 'V0') if r not in used][0]
+    names = used + [spare]
+    shapes = [np.shape(PR.PRELUDE[r](np.zeros(NX))) for r in names]
+    return names, shapes
+
+
+def symbolic_split(prog):
+    """the program as a polynomial in SEPARATE variables for every prelude register it reads (and one it does not)"""
+    names, shapes = split_layout(prog)
+    sizes = [int(np.prod(sh, dtype=int)) for sh in shapes]
+    n = sum(sizes)
+    X = Q.variables(n)
+    regs, off = {}, 0
+    for r, sh, sz in zip(names, shapes, sizes):
+        regs[r] = X[off] if sh == () else X[off:off + sz].reshape(sh).copy()
+        off += sz
+    y, _ = PR.run(prog, PR.Split(regs))
+    return Q.as_poly(n, np.asarray(y, dtype=object).ravel()[0]), names, shapes, sizes
+
+
+def split_point(prog, x):
+    names, shapes = split_layout(prog)
+    return [np.array(PR.PRELUDE[r](x), dtype=float, copy=True) for r in names]
+
+
+def record_split(prog, reckind, seed):
+    Function.cgraph = None
+    x0 = rec_input(reckind, seed)
+    names, shapes = split_layout(prog)
+    vals = []
+    for r in names:
+        v = PR.PRELUDE[r](x0)
+        vals.append(UTPM(v.data.copy()) if isinstance(v, UTPM) else np.array(v, dtype=float, copy=True))
+    cg = CGraph()
+    F = [Function(v) for v in vals]
+    y, _ = PR.run(prog, PR.Split(dict(zip(names, F))))
+    cg.trace_off()
+    cg.independentFunctionList = F
+    cg.dependentFunctionList = [y]
+    return cg
+
+
 def fr(pt):
     return [Fraction(float(v)) for v in pt]
 
@@ -211,7 +255,7 @@ def check_poly_program(prog, reckind, seed, only=None):
                 keys.append('%s|%s|%s|%s' % (PR.prog_str(prog), reckind, ptname, drv))
         drivers = []
         if scalar:
-            drivers += ['gradient', 'gradient_list', 'hessian', 'hess_vec']
+            drivers += ['gradient', 'gradient_list', 'gradient_multi', 'hessian', 'hess_vec']
         drivers += ['jacobian', 'jacobian_utpm', 'jac_vec', 'vec_jac', 'vec_hess', 'vec_hess_vec']
         for drv in drivers:
             if only is not None and (drv, ptname) not in only:
@@ -234,6 +278,38 @@ def check_poly_program(prog, reckind, seed, only=None):
                 else:
                     cmp(r[0], J[0], MJ[0], what, fails, stats)
                 done(drv, nz)
+            elif drv == 'gradient_multi':
+                # every prelude register an independent of its own (+ one the program never reads): list in, list out
+                try:
+                    sp, names, shapes, sizes = symbolic_split(prog)
+                    record_split(prog, reckind, seed)
+                except Exception:
+                    Function.cgraph = None
+                    continue
+                finally:
+                    Function.cgraph = None
+                parts = split_point(prog, pt)
+                r = call(fails, what, lambda: record_split(prog, reckind, seed).gradient([a.copy() for a in parts]))
+                if r is None or isinstance(r, str):
+                    continue
+                evals += 1
+                if not isinstance(r, list) or len(r) != len(names):
+                    fails.append((what, {'reason': 'list of %d gradients expected' % len(names), 'got': str(type(r))}))
+                    continue
+                flat = fr(np.concatenate([a.ravel() for a in parts]))
+                off = 0
+                anynz = False
+                for g, sh, sz, nm in zip(r, shapes, sizes, names):
+                    ev = [sp.diff(off + j).eval(flat) for j in range(sz)]
+                    exp = np.array([float(e[0]) for e in ev]).reshape(sh)
+                    mj = np.array([float(e[1]) for e in ev]).reshape(sh)
+                    anynz = anynz or bool(np.any(exp != 0))
+                    if np.shape(g) != tuple(sh):
+                        fails.append((what, {'reason': 'shape', 'independent': nm, 'got_shape': list(np.shape(g)), 'expected_shape': list(sh)}))
+                        break
+                    cmp(g, exp, mj, what, fails, stats)
+                    off += sz
+                done(drv, anynz)
             elif drv == 'jacobian':
                 r = call(fails, what, lambda: fresh(prog, reckind, seed).jacobian(pt))
                 if r is None or isinstance(r, str):
